@@ -661,10 +661,15 @@ def run(ctx):
             if isinstance(base, Abs) and name == "_set_existing_field":
                 return NotImplemented
             return NotImplemented
-    for field, value, vl in itertools.product(
-            ("sid", "slen", "xx"), ("new", "taken", None), (0, 1, 2, 3)):
-        def run_once(script, field=field, value=value, vl=vl):
-            g = Abs(gfacls, label="gfa", registry=["line", "other"])
+    # the validation level of a line is its own: a line built at one level
+    # may sit in a Gfa of another (Line instances added to Gfa(vlevel=0),
+    # gfa.vlevel assigned later), so both are cells
+    for field, value, (vl, gvl) in itertools.product(
+            ("sid", "slen", "xx"), ("new", "taken", None),
+            ((0, 0), (1, 1), (2, 2), (3, 3), (1, 0), (3, 0), (0, 3))):
+        def run_once(script, field=field, value=value, vl=vl, gvl=gvl):
+            g = Abs(gfacls, label="gfa", registry=["line", "other"],
+                    vlevel=gvl)
             other = Abs(SEG, label="other", _gfa=g, _virtual=False,
                         virtual=False)
             ln = Abs(SEG, label="line", _gfa=g, vlevel=vl,
@@ -674,7 +679,8 @@ def run(ctx):
             out = eval_function(repo, f_sef, [ln, field, value],
                                 hooks=FH(repo, script, other))
             return out, before, snapshot([g, ln]), out[2]
-        judge(R, f_sef, "field=%s,value=%s,vlevel=%d" % (field, value, vl),
+        judge(R, f_sef, "field=%s,value=%s,vlevel=%d,gfa.vlevel=%d" % (
+                  field, value, vl, gvl),
               enumerate_faults(run_once,
                                {"_validate_gfa_field": "gfapy.FormatError",
                                 "parse-name-on-register":
